@@ -117,6 +117,9 @@ func MetaEvent(r *mon.Rand, allowBig bool) []byte {
 
 // SysexEvent draws F0 with F7, F0 without F7, or an F7 continuation/escape packet.
 func SysexEvent(r *mon.Rand, allowBig bool) []byte {
+	if r.P(1, 6) {
+		return append([]byte(nil), WellKnownSysex[r.Intn(len(WellKnownSysex))]...)
+	}
 	n := PayloadLen(r, allowBig)
 	p := r.Bytes7(n)
 	switch r.Intn(4) {
@@ -141,6 +144,13 @@ func ChannelEvent(r *mon.Rand, prev []byte) []byte {
 		m := append([]byte(nil), prev...)
 		for i := 1; i < len(m); i++ {
 			m[i] = r.Byte() & 0x7F
+		}
+		return m
+	}
+	if r.P(1, 8) {
+		m := append([]byte(nil), WellKnownChannel[r.Intn(len(WellKnownChannel))]...)
+		if r.Bool() {
+			m[0] = m[0]&0xF0 | r.Byte()&0x0F
 		}
 		return m
 	}
